@@ -180,6 +180,15 @@ var baseAssumptions = []string{
 }
 
 // Finish prints the verdict, writes evidence and returns the exit code.
+// applyFloors turns a rule that matched fewer instances than confirmed by hand into a violation.
+func (r *Report) applyFloors() {
+	for rule, min := range r.MinInstances {
+		if n := r.Count(rule); n < min {
+			r.Bad(rule, "instance-floor", "-", fmt.Sprintf("rule matched %d instances, fewer than the %d confirmed by hand on the pinned tree: anchors drifted or the mechanism was removed", n, min))
+		}
+	}
+}
+
 func (r *Report) Finish(verifDir string, seed int, start time.Time, loadErr error) int {
 	known, kerr := LoadKnown(filepath.Join(verifDir, "known_findings.txt"))
 	if kerr != nil {
@@ -190,11 +199,7 @@ func (r *Report) Finish(verifDir string, seed int, start time.Time, loadErr erro
 	for _, o := range r.Obs {
 		rules[o.Rule] = true
 	}
-	for rule, min := range r.MinInstances {
-		if n := r.Count(rule); n < min {
-			r.Bad(rule, "instance-floor", "-", fmt.Sprintf("rule matched %d instances, fewer than the %d confirmed by hand on the pinned tree: anchors drifted or the mechanism was removed", n, min))
-		}
-	}
+	r.applyFloors()
 	sort.SliceStable(r.Obs, func(i, j int) bool { return r.Obs[i].Key < r.Obs[j].Key })
 
 	var viol, undec, disc, nontriv, knownHits int
